@@ -84,6 +84,10 @@ struct Sim {
 	uint64_t rand_draws = 0, srand_calls = 0;
 	// allocator
 	int realloc_mode = 0;     // 0 = libc decides, 1 = always move, 2 = (libc) in place when possible
+	uint64_t garbage_fills = 0;
+	int malloc_fill = 0;      // 1 = every block the library obtains from malloc (and every tail a realloc adds) is filled with garbage that depends on how many
+	                          //     allocations the process has made so far: what real allocators do when they hand a freed chunk out again.  Output that depends on
+	                          //     memory the library never initialised then depends on history - and differs from the fresh-process reference
 	uint64_t mallocs = 0, reallocs = 0, realloc_moved = 0, frees = 0;
 	bool track_blocks = false;
 	struct Block { size_t n; int tag; };
